@@ -797,7 +797,15 @@ pub fn stale(seed: u64, bases: &str, count: u64, max_ops: u64, outdir: &str, lis
                     refusals += 1;
                     let what = if shared.snapshot() != bytes0 { Some("the file bytes changed".to_string()) } else {
                         let v = real.handle_views();
-                        if v != views0 { Some(format!("the handles show [{}] instead of [{}] (id:len:position:dirty)", v, views0)) } else { None }
+                        // `hread` is a loop of read calls (like read_exact): calls before the refused one may have delivered
+                        // bytes from the buffer, so the position may have moved forward by less than the request — never back
+                        let fwd_ok = line.starts_with("hread") && {
+                            let want: u64 = line.split(' ').nth(2).and_then(|x| x.parse().ok()).unwrap_or(0);
+                            let parse = |t: &str| -> Vec<(String, u64, u64, String)> { t.split(';').filter(|x| !x.is_empty()).map(|x| { let f: Vec<&str> = x.split(':').collect(); (f[0].to_string(), f[1].parse().unwrap_or(0), f[2].parse().unwrap_or(0), f[3].to_string()) }).collect() };
+                            let (a, b) = (parse(&views0), parse(&v));
+                            a.len() == b.len() && a.iter().zip(b.iter()).all(|(x, y)| x.0 == y.0 && x.1 == y.1 && x.3 == y.3 && y.2 >= x.2 && y.2 < x.2 + want.max(1))
+                        };
+                        if v != views0 && !fwd_ok { Some(format!("the handles show [{}] instead of [{}] (id:len:position:dirty)", v, views0)) } else { None }
                     };
                     if let (Some(w), true) = (what, c10_reported < 3) {
                         c10_reported += 1;
